@@ -243,6 +243,9 @@ func (g *Gen) fieldValue(f string) V {
 		return g.tim()
 	case "arr":
 		n := g.r.Intn(4)
+		if g.P.Rich && g.chance(0.3) {
+			n = 8 + g.r.Intn(5) // long enough for code that switches algorithm with the size
+		}
 		var el []V
 		for i := 0; i < n; i++ {
 			if g.P.Rich && g.chance(0.4) {
@@ -646,6 +649,13 @@ func (g *Gen) updater(bulk bool) []interface{} {
 		return []interface{}{"nil"}
 	case g.chance(g.P.Invalid):
 		// an update producing an invalid document: rewrites _id / breaks _expiresAt
+		if g.chance(0.15) { // a path *through* _id turns it into a sub-document
+			kind := "set"
+			if g.chance(0.5) {
+				kind = "setInPlace"
+			}
+			return []interface{}{kind, B("_id.rev"), g.smallNum()}
+		}
 		if g.chance(0.35) { // the same UUID spelled differently is a different _id
 			return []interface{}{"idform", g.pick([]string{"upper", "braces", "urn", "bare", "bare"})}
 		}
